@@ -892,7 +892,13 @@ func locatedAtInclude(c *Case, o *Outcome, log []Access, mr *modelResult, res *R
 	}
 	f.Data = data
 	c2 := &Case{Prop: c.Prop, Seed: c.Seed, Project: q, Entry: c.Entry, RootAs: c.RootAs, Banned: c.Banned}
-	must(Materialise(q.Files))
+	if err := Materialise(q.Files); err != nil {
+		// the served versions cannot be laid out as one tree (a fault made a path a file at one
+		// moment and a directory at another): no differential for this run
+		must(Materialise(c.Project.Files))
+		res.count("c14:located-check-abstained(served-tree-not-materialisable)", 1)
+		return ""
+	}
 	o2 := buildCase(c2)
 	must(Materialise(c.Project.Files))
 	if o2.Err != nil && o2.Err.Msg == e.Msg && filepath.Clean(o2.Err.File) == filepath.Clean(e.File) && o2.Err.Index == e.Index {
